@@ -189,14 +189,14 @@ Lemma sweep_t_slot_ar fuel : forall s0 s slot nowv due s' due', sweep_t_slot fue
 Proof.
   induction fuel as [|f IH]; simpl; intros s0 s slot nowv due s' due' H A.
   - inv H. auto.
-  - repeat (split_hyp H); try (inv H; eauto 10 with ar; fail); (eapply IH; [exact H|]); eauto 15 with ar. Show.
+  - repeat (split_hyp H); try (inv H; eauto 10 with ar; fail); (eapply IH; [exact H|]); brk; eauto 15 with ar.
 Qed.
 
 Lemma sweep_long_ar items : forall s0 s is_t due s' due', sweep_long s items is_t due = (s', due') -> arel s0 s -> arel s0 s'.
 Proof.
   induction items as [|r rest IH]; simpl; intros s0 s is_t due s' due' H A.
   - inv H. auto.
-  - repeat (split_hyp H); (eapply IH; [exact H|]); eauto 15 with ar.
+  - repeat (split_hyp H); (eapply IH; [exact H|]); brk; eauto 15 with ar.
 Qed.
 
 Lemma collect_timeouts_ar s0 s t nowv s' due : collect_timeouts s t nowv = (s', due) -> arel s0 s -> arel s0 s'.
@@ -213,7 +213,7 @@ Lemma sweep_e_slot_ar fuel : forall s0 s slot nowv due ev s' due' ev',
 Proof.
   induction fuel as [|f IH]; simpl; intros s0 s slot nowv due ev s' due' ev' H A.
   - inv H. auto.
-  - repeat (split_hyp H); try (inv H; eauto 10 with ar; fail); (eapply IH; [exact H|]); eauto 15 with ar.
+  - repeat (split_hyp H); try (inv H; eauto 10 with ar; fail); (eapply IH; [exact H|]); brk; eauto 15 with ar.
 Qed.
 
 Lemma collect_expiries_ar s0 s t nowv s' due ev : collect_expiries s t nowv = (s', due, ev) -> arel s0 s -> arel s0 s'.
